@@ -6,6 +6,7 @@ import random
 import struct
 from typing import Any, Dict, Iterator, List, Optional
 
+import core
 from core import Case, Prop, SelfCheckFailure, pack_stable, ISOLATION
 from gen import hx, unhx, pool, rbytes
 from props.c05 import shared_conf, conf_untouched, contrast_conf, decoded_alone
@@ -159,6 +160,38 @@ def _isolated(p, fields, f):
     decoded_alone(p, _digest(fields), f, name + ".unpack", before=d)
 
 
+def declared_pdu_len(raw: bytes) -> Optional[int]:
+    """length the fixed header declares (4 + 2*idw + seqw + data-field length), None if it cannot be read"""
+    if len(raw) < 4:
+        return None
+    idw, sqw = ((raw[3] >> 4) & 7) + 1, (raw[3] & 7) + 1
+    return 4 + 2 * idw + sqw + ((raw[1] << 8) | raw[2])
+
+
+def unpack_tolerant(cls, raw: bytes, refuses: bool = False):
+    """`cls.unpack(raw)` under the C09 clause for CFDP PDUs: a complete PDU followed by further octets is EITHER decoded
+    exactly as the PDU alone OR refused with a documented error - both are right, whatever the model's decoder does.
+    * model ignores trailing octets (refuses=False): a documented refusal of the longer buffer is answered by decoding
+      the declared PDU alone;
+    * model refuses them (refuses=True, NAK): an implementation that decodes the longer buffer must decode it exactly
+      as the PDU alone (checked here), and the case then counts as the refusal the model shows."""
+    n = declared_pdu_len(raw)
+    longer = n is not None and n < len(raw)
+    try:
+        q = cls.unpack(raw)
+    except Exception as e:  # noqa
+        if longer and not refuses and core.exc_categories(e):
+            return cls.unpack(raw[:n])
+        raise
+    if longer and refuses:
+        alone = cls.unpack(raw[:n])
+        if bytes(alone.pack()) != bytes(q.pack()) or not (alone == q):
+            raise SelfCheckFailure(f"{cls.__name__}: octets after the declared PDU change the decoded PDU")
+        raise ValueError("(canonicalised) a PDU followed by further octets, decoded as the PDU alone")
+    return q
+
+
+
 def _decoded(p, fields, raw: bytes):
     f = fields(p)
     _isolated(p, fields, f)
@@ -277,7 +310,7 @@ def op_ack_pack(a):
 
 def op_ack_unpack(a):
     raw = unhx(a["raw"])
-    return _decoded(AckPdu.unpack(raw), _ack_fields, raw)
+    return _decoded(unpack_tolerant(AckPdu, raw), _ack_fields, raw)
 
 
 # ---- Prompt ----
@@ -295,7 +328,7 @@ def op_prompt_pack(a):
 
 def op_prompt_unpack(a):
     raw = unhx(a["raw"])
-    return _decoded(PromptPdu.unpack(raw), _prompt_fields, raw)
+    return _decoded(unpack_tolerant(PromptPdu, raw), _prompt_fields, raw)
 
 
 # ---- Keep Alive ----
@@ -315,7 +348,7 @@ def op_ka_pack_fails(a):
 
 def op_ka_unpack(a):
     raw = unhx(a["raw"])
-    return _decoded(KeepAlivePdu.unpack(raw), _ka_fields, raw)
+    return _decoded(unpack_tolerant(KeepAlivePdu, raw), _ka_fields, raw)
 
 
 def _after_setter(p, cls, fields):
@@ -356,7 +389,7 @@ def op_nak_pack_fails(a):
 
 def op_nak_unpack(a):
     raw = unhx(a["raw"])
-    return _decoded(NakPdu.unpack(raw), _nak_fields, raw)
+    return _decoded(unpack_tolerant(NakPdu, raw, refuses=True), _nak_fields, raw)
 
 
 def op_nak_set_segs(a):
@@ -405,6 +438,22 @@ OPS = {
     "nak_set_segs": op_nak_set_segs, "nak_set_file_flag": op_nak_set_file_flag, "nak_eq": _eq_op(_nak),
     "nak_max_segs": op_nak_max_segs,
 }
+
+
+def _encoder_failure_is_refusal(fn):
+    """C06 asks of an encoder only that an unencodable parameter set makes pack() FAIL rather than truncate; which
+    class it fails with is not stated (C10 is about decoders). struct.error / OverflowError from an encoder op are
+    therefore reported like the ValueError the model shows."""
+    def wrapped(a):
+        try:
+            return fn(a)
+        except (struct.error, OverflowError) as e:
+            raise ValueError(f"(canonicalised encoder failure) {type(e).__name__}: {e}") from e
+    return wrapped
+
+
+for _k in [k for k in OPS if k.endswith(("_pack", "_new", "_set", "_set_segs", "_set_file_flag"))]:
+    OPS[_k] = _encoder_failure_is_refusal(OPS[_k])
 
 
 # --------------------------------------------------------------------------------------------
